@@ -176,7 +176,7 @@ func afterList(calls []string, k int, gk schema.GroupKind) bool {
 // ---------------------------------------------------------------------------
 // deterministic sweep
 
-var followUp = []act{{Op: "rec-def"}, {Op: "rec-off"}, {Op: "rec-claim"}, {Op: "rec-xr"}, {Op: "gc"}, {Op: "rec-def"}, {Op: "rec-off"}}
+var followUp = []act{{Op: "rec-def"}, {Op: "rec-off"}, {Op: "rec-claim"}, {Op: "rec-xr"}, {Op: "gc"}, {Op: "crd-cleanup"}, {Op: "rec-def"}, {Op: "rec-off"}}
 
 // TestVerifC08Interleavings: from every state reachable by a short fault-free
 // teardown prefix after the XRD was deleted, each XRD reconcile is run with
@@ -188,7 +188,7 @@ func TestVerifC08Interleavings(t *testing.T) {
 	if verifkit.Tier() == "thorough" {
 		depth = 8
 	}
-	prefixOps := []act{{Op: "rec-def"}, {Op: "rec-off"}, {Op: "rec-claim"}, {Op: "rec-xr"}, {Op: "gc"}, {Op: "del-claim"}}
+	prefixOps := []act{{Op: "rec-def"}, {Op: "rec-off"}, {Op: "rec-claim"}, {Op: "rec-xr"}, {Op: "gc"}, {Op: "del-claim"}, {Op: "crd-cleanup"}}
 	shard, shards := verifkit.Shard()
 	for _, fg := range []bool{false, true} {
 		u := universe{Claims: 1, Templates: 1, Foreground: []bool{fg}, Stage: stageFull, Seed: 13}
